@@ -85,7 +85,11 @@ def run(ctx):
         fw.write_if_changed(fw.COQ / 'Gen' / 'Facts_C01.v', gen_facts_c01.stub(str(e)))
         ctx.broken_tie('gen_facts_c01 (source translator failed closed)', str(e))
         facts_ok = False
-    fw.static_proofs(ctx, ['Properties/C07.v', 'Properties/C01_native.v'], extra_targets=['Tie/C01_tie.vo'] if facts_ok else [])
+    # the fast Python engine is this campaign's cross-check: its transcription is re-derived from the current source
+    from .. import engpy_source
+    src_props, src_targets = engpy_source.prepare(ctx)
+    fw.static_proofs(ctx, ['Properties/C07.v', 'Properties/C01_native.v'] + src_props,
+                     extra_targets=(['Tie/C01_tie.vo'] if facts_ok else []) + src_targets)
     so = fw.build_fjcore(ctx)
     groups = gen_cases(ctx, ctx.n(700, 8000))
     cases = [c for g in groups for c in g]
